@@ -375,7 +375,7 @@ func historyScenario(rn *runner, seed uint64, tier string) {
 		_, la, lb, op := firstDiff(ref.Canon, got.Canon)
 		out.Add(res.Finding{Kind: "judge", Op: "judge:history", Input: d2.HTML, Impl: lb, Model: la,
 			Reason: fmt.Sprintf("the document rendered in a fresh process after %d other documents (SVG <text>, form controls) differs from the same document rendered in a fresh process on its own (first differing call %s: %q vs %q)", nA, op, la, lb),
-			Key:    "after-svg-text", Seed: d.Seed})
+			Key:    "after-other-documents", Seed: d.Seed})
 	}
 }
 
